@@ -483,6 +483,23 @@ unsafe_force = __IDENTITY
 random = math.random
 randint = math.random
 
+-- Dicts and sets are Lua tables indexed by a string made from the key. Equal keys have to give equal strings
+-- and different keys different strings, which `tostring` does not do for strings inside tuples:
+-- ("a, b", "c") and ("a", "b, c") both print as (a, b, c).
+function __KEY(k)
+    local t = type(k)
+    if t == "string" then
+        return string.format("%q", k)
+    elseif t == "table" and getmetatable(k) == __TUPLE_META then
+        local out = "("
+        for i = 1, #k do
+            out = out .. __KEY(k[i]) .. ","
+        end
+        return out .. ")"
+    end
+    return tostring(k)
+end
+
 -- Dict
 __LUA_DICT_META = { _type = "dict" }
 __LUA_DICT_META.__eq = function(a, b)
@@ -525,15 +542,15 @@ function dict_from_list(l)
 end
 
 function dict_update(dict, k, v)
-    dict[tostring(k)] = __TUPLE {k, v}
+    dict[__KEY(k)] = __TUPLE {k, v}
 end
 
 function dict_remove(dict, k)
-    dict[tostring(k)] = nil
+    dict[__KEY(k)] = nil
 end
 
 function dict_get(dict, k)
-    local x = dict[tostring(k)]
+    local x = dict[__KEY(k)]
     if x == nil then
        return __VARIANT({"None", __NIL})
     else
@@ -599,15 +616,15 @@ function set_from_list(l)
 end
 
 function set_add(set, k)
-    set[tostring(k)] = k
+    set[__KEY(k)] = k
 end
 
 function set_remove(set, k)
-    set[tostring(k)] = nil
+    set[__KEY(k)] = nil
 end
 
 function set_contains(set, k)
-    return set[tostring(k)] ~= nil
+    return set[__KEY(k)] ~= nil
 end
 
 function set_for_each(set, f)
